@@ -148,6 +148,12 @@ J gen_tunnel(uint64_t seed, const J &ov)
 		else if (c.gets("qtype").empty()) c.set("qtype", TYPES[r.range(0, 6)]);
 		c.set("lat_up_us", (long long)r.range(100, 5000)); c.set("lat_dn_us", (long long)r.range(100, 5000));
 	}
+	if (mode == "clean" && dom.size() >= 12 && r.chance(0.06)) {
+		// a hostname limit too small for this domain (-M accepts 10..255 whatever the domain): the tunnel cannot carry anything
+		// useful then, but what the client emits must still be DNS (C10)
+		cl.a[0].set("maxlen", (int)std::max<int64_t>(10, (int64_t)dom.size() + r.range(-4, 10)));
+		cfg.set("tiny_M", true);
+	}
 	cfg.set("clients", cl);
 
 	uint64_t ser = seed % 1000 * 100000;
@@ -413,7 +419,7 @@ World *build_tunnel(const J &plan)
 	else if (mode == "stale") w->add(mk_stale_dup(w));
 	else if (mode == "clean9") { w->add(mk_c02_delivery(w, true, false, "C09")); w->add(mk_c09_probe_judge(w)); }
 	else if (mode == "names") { w->add(mk_c02_delivery(w, true, false, "C02")); w->add(mk_c08_names(w)); }
-	else w->add(mk_c02_delivery(w, mode == "clean", mode == "recover"));
+	else w->add(mk_c02_delivery(w, mode == "clean" && !w->cfg.getb("tiny_M"), mode == "recover"));     // with -M too small for the domain no delivery is promised
 	if (mode != "stale") w->add(mk_c15_fragsize(w));     // stale: replays of old cached answers interleave with the current packet on the wire; C15 is judged elsewhere
 	bool dupish = w->cfg["faults"].getd("p_dup") > 0 || w->cfg["faults"].getd("p_redeliv") > 0;
 	w->add(mk_c14_ledger(w, !dupish));
